@@ -120,6 +120,10 @@ def modelStep (s : St) (ts : List String) : St × Option String :=
     -- `LoadRuleOfResource(res, nil)`: rule and node breakers of the resource are dropped
     | some (r, t) => (setRes s name r.clear { t with loaded := false }, some "ok")
     | none => (s, some "ok")
+  | ["recovery", _, ma, ims] =>
+    -- MaxRecoveryAttempts / RecoveryIntervalMs of the rules loaded from now on: only the retryer's real-time timers read
+    -- them; neither the check nor the recycler does (in particular `MaxRecoveryAttempts = 0` does not switch to passive mode)
+    if ma.toNat?.isSome ∧ ims.toNat?.isSome then (s, none) else (s, some "bad-op")
   | ["rules"] =>
     -- `outlier.GetRules()`: the rules in force, as (resource, MaxEjectionPercent, EnableActiveRecovery)
     (s, some (showList (sortS ((s.res.filter fun p => p.2.2.loaded).map fun p =>
@@ -271,6 +275,7 @@ def oracleStep (s : OSt) (ts : List String) (line : String) : OSt × Option Stri
       let kn := ((oGet s name).map (·.known)).getD []
       (oSet s name { m := m, E := E, active := act ≠ 0, status := st, known := kn }, some "?")
     | _, _ => (s, some (if op = "loadres" ∧ res = "err" then "?" else "bad-op"))
+  | ["recovery", _, _, _] => (s, none)
   | ["rules"] => (s, some "?")
   | ["unload", name] => match oGet s name with
     | some r => (oSet s name { r with m := 0, E := 0, active := false, loaded := false, known := [] }, some "?")
